@@ -916,6 +916,17 @@ class Translator:
             if name == 'end': return f'WLIST_END({optr()})'
             if name == 'front': return f'(*WLIST_FRONT({optr()}))'
             if name == 'emplace_back' and not args: return f'WLIST_EMPLACE_BACK({optr()})'
+            if name in ('sort', 'merge') and len(args) == (1 if name == 'sort' else 2):
+                # comparator given as the address of a static member function of this unit
+                ca = self.skip(args[-1])
+                if ca.get('kind') == 'UnaryOperator' and ca.get('opcode') == '&':
+                    s0 = self.skip(ca['inner'][0])
+                    d = self.byid.get(s0.get('referencedDecl', {}).get('id')) if s0.get('kind') == 'DeclRefExpr' else None
+                    if d is not None and self.has_body(d):
+                        self.enqueue(d); fnc = self.func_cname(d)
+                        if name == 'sort': return f'WLIST_SORT_FN({optr()}, {fnc})'
+                        return f'WLIST_MERGE_FN({optr()}, {self.addr_of(args[0], cx)}, {fnc})'
+            if name == 'back' and not args: return f'(*WLIST_BACK({optr()}))'
             if name == 'sort' and len(args) == 1:
                 lam = self.skip(args[0])
                 while lam.get('kind') == 'CXXConstructExpr' and len(lam.get('inner', [])) == 1: lam = self.skip(lam['inner'][0])
@@ -1154,6 +1165,14 @@ class Translator:
             if t.cls == 'record' and rd is not None and self.byid.get(rd['id']) is not None and self.has_body(self.byid[rd['id']]):
                 return self.call_function(self.byid[rd['id']], None, args, cx)
             raise Unsupported(f'swap of {t} in {cx.cname}')
+        if nm in ('lower_bound', 'upper_bound') and len(args) == 4:
+            ca = self.skip(args[3])
+            if ca.get('kind') == 'UnaryOperator' and ca.get('opcode') == '&':
+                s0 = self.skip(ca['inner'][0])
+                d = self.byid.get(s0.get('referencedDecl', {}).get('id')) if s0.get('kind') == 'DeclRefExpr' else None
+                if d is not None and self.has_body(d) and self.ctype(self.qt(self.skip(args[0]))).cls == 'listit':
+                    self.enqueue(d)
+                    return f'WLIST_{nm.upper()}_FN({self.E(args[0], cx)}, {self.E(args[1], cx)}, {self.addr_of(args[2], cx)}, {self.func_cname(d)})'
         if nm == 'find_if' and len(args) == 3:
             lam = self.skip(args[2])
             while lam.get('kind') == 'CXXConstructExpr' and len(lam.get('inner', [])) == 1: lam = self.skip(lam['inner'][0])
